@@ -60,6 +60,7 @@ var pkgAlias = map[string]string{
 	"caching":        V2Prefix + "pkg/caching",
 	"cachectl":       V2Prefix + "pkg/engine/cache",
 	"opreport":       V2Prefix + "pkg/operationreport",
+	"graphqlerrors":  V2Prefix + "pkg/graphqlerrors",
 	"engine":         ExecPrefix + "engine",
 	"graphql":        ExecPrefix + "graphql",
 	"subscription":   ExecPrefix + "subscription",
